@@ -425,7 +425,7 @@ row('EXEC.Y', ['C06'], fired='(S0.exec.len() >= 1)', touches=['exec'], clauses=[
      % (e0, is_list_of('top(S1.exec, 1)', ['=' + e0, 'EXEC.Y']))),
     ('{C06,C10}unfired.exec', 'S0.exec.len() == 0 ==> S1.exec == S0.exec')])
 # "=": the documentation does not say the operands are consumed; the comparison itself is on printed forms (opaque)
-row('EXEC.=', ['C06'], fired='(S0.exec.len() >= 2)', touches=['exec'], pushes=[('bool', None)], clauses=[('fired.operand.exec', 'shrunk(S0.exec, S1.exec, 2)')])
+row('EXEC.=', ['C06'], fired='(S0.exec.len() >= 2)', touches=['exec'], pushes=[('bool', 'str_of(top(S0.exec, 1)) == str_of(top(S0.exec, 0))')], clauses=[('fired.operand.exec', 'shrunk(S0.exec, S1.exec, 2)')])
 row('EXEC.ID', ['C06'], pushes=[('int', '4i32')])
 row('CODE.ID', ['C08'], pushes=[('int', '3i32')])
 # LOOP: body, index -> if current < destination: ( body EXEC.LOOP INDEX.INCREASE ) then body on top; else the index is removed
@@ -573,7 +573,7 @@ for nm, st, kind, seqw in [('LIST.NEIGHBOR*BVALS', 'boolvec', 'bool', 'seq_bool'
 
 # ------------------------------------------------------------------ C08: CODE list operations -- operand handling and footprint
 # (value clauses against the depth-first point functions are added in spec/code_rows below as they are proved)
-row('CODE.=', ['C08'], fired='(S0.code.len() >= 2)', touches=['code'], pushes=[('bool', None)], clauses=[('fired.operand.code', 'shrunk(S0.code, S1.code, 2)')])
+row('CODE.=', ['C08'], fired='(S0.code.len() >= 2)', touches=['code'], pushes=[('bool', 'str_of(top(S0.code, 1)) == str_of(top(S0.code, 0))')], clauses=[('fired.operand.code', 'shrunk(S0.code, S1.code, 2)')])
 row('CODE.APPEND', ['C08'], takes=[('code', 2)], pushes=[('code', None)])
 row('CODE.ATOM', ['C08'], fired='(S0.code.len() >= 1)', pushes=[('bool', '!(top(S0.code, 0) is List)')])
 row('CODE.CAR', ['C08'], touches=['code'], clauses=[
@@ -594,7 +594,21 @@ for nm in ['CODE.CONTAINER']:
 # MEMBER is its mirror image (the second item contains the top item).  Structural: some point of the container equals the other item.
 row('CODE.CONTAINS', ['C08'], fired='(S0.code.len() >= 2)', pushes=[('bool', 'crate::push::item::first_pos(top(S0.code, 0), top(S0.code, 1)).is_some()')])
 row('CODE.MEMBER', ['C08'], fired='(S0.code.len() >= 2)', pushes=[('bool', 'crate::push::item::first_pos(top(S0.code, 1), top(S0.code, 0)).is_some()')])
-row('CODE.DISCREPANCY', ['C08'], fired='(S0.code.len() >= 2)', pushes=[('int', None)])
+row('CODE.DISCREPANCY', ['C08'], fired='(S0.code.len() >= 2)', pushes=[('int', 'crate::push::code::discrepancy_of(top(S0.code, 1), top(S0.code, 0))')])
+FN_OVERLAYS['code::code_discrepancy'] = dict(attrs='#[verifier::loop_isolation(false)]\n', loops={0: '''
+            invariant discrepancy == crate::push::code::mismatches(fstlist@, scdlist@, ghost_iter.index@ as nat), 0 <= discrepancy <= ghost_iter.index@, discrepancy <= scdlist@.len(),
+                fstvec@.len() == fstlist@.len(), fstlist@.len() < 0x7fff_ffff, scdlist@.len() < 0x7fff_ffff,
+                forall|k: int| 0 <= k < fstvec@.len() ==> #[trigger] fstvec@[k] == fstlist@[k],
+'''}, proofs={'body_start': '''        proof {
+            if push_state.code_stack@.len() >= 2 {
+                crate::push::item::lemma_points_gt_len(top(push_state.code_stack@, 0));
+                crate::push::item::lemma_points_gt_len(top(push_state.code_stack@, 1));
+                assert(crate::push::item::points(push_state.code_stack@[push_state.code_stack@.len() - 1]) < 0x7fff_ffff);
+                assert(crate::push::item::points(push_state.code_stack@[push_state.code_stack@.len() - 2]) < 0x7fff_ffff);
+            }
+        }
+''', 'loop 0 start': '''                                proof { crate::push::code::lemma_mismatches_bounds(fstlist@, scdlist@, (ghost_iter.index@ + 1) as nat); }
+'''})
 row('CODE.DEFINITION', ['C07'], takes=[('name', 1)], guard='S0.bindings.contains_key(top(S0.name, 0))', pushes=[('code', 'S0.bindings[top(S0.name, 0)]')])
 PTS = 'crate::push::item::points'
 NTH = 'crate::push::item::nth_point'
